@@ -41,7 +41,10 @@ def check_call(r, where):
     if not r["rum"] and abs(dg) > tol:
         out.append(("grass_given_to_non_ruminant", "%s: %.6g grass eaten by a non-ruminant" % (where, dg)))
     delivered = r["eg"] * max(dg, 0) + r["ef"] * max(df, 0)
-    rtol = 1e-9 * max(req, 1e-300)
+    # the energy delivered is observed as a difference of pool levels: with a pool many orders of magnitude above the
+    # requirement the subtraction itself is only exact to a few ulp of the pool
+    cancel = 8 * 2.220446049250313e-16 * (r["eg"] * abs(r["g0"]) + r["ef"] * abs(r["f0"]))
+    rtol = 1e-9 * max(req, 1e-300) + cancel
     if delivered > req + rtol + 1e-12 * sc:
         out.append(("more_energy_than_required", "%s: delivered %.8g net > required %.8g" % (where, delivered, req)))
     if abs((req - delivered) - r["bal"]) > 10 * rtol + 1e-12 * sc:
@@ -65,7 +68,7 @@ def check_call(r, where):
             out.append(("fully_fed_herd_not_counted_fed", "%s: requirement met but fed %.1f of %.1f" % (where, fed, herd_n)))
     elif req > 0:
         want = herd_n * delivered / req
-        if abs(fed - want) > 0.5 + 1e-9 * herd_n:
+        if abs(fed - want) > 0.5 + 1e-9 * herd_n + herd_n * cancel / req:
             mech = "partial_fed_count_wrong"
             if (req - delivered) > 0 and abs(fed - round(delivered / (req - delivered) * herd_n)) <= 0.5 + 1e-9 * herd_n:
                 mech = "fed_count_divides_by_remaining_requirement"
